@@ -443,6 +443,11 @@ FIXED = [
      "sigma": 131072.0, "quantity": "energy_density", "kernel": "gaussian", "add": False,
      "particles": [{"x": 0.0, "y": 0.0, "z": 0.0, "px": 1.0, "py": 0.0, "pz": 0.0, "mass": 1.0, "E": 2.0, "charge": 1,
                     "baryon_number": 1, "strangeness": 0}]},
+    # decimal steps: the stencil touches the lower x face, -0.3 + 0.4 is one ulp below x_min = 0.1
+    {"ext": [0.1, 1.3, 0.1, 0.5, 2.3, 6.7], "n": [5, 5, 5], "nsig": [0.4285714285714286, 0.24285714285714288, 2.042857142857143],
+     "sigma": 0.7, "quantity": "energy_density", "kernel": "gaussian", "add": False,
+     "particles": [{"x": 0.31, "y": 0.30000000000000004, "z": 3.07, "px": 0.5, "py": 0.0, "pz": 1.0, "mass": 1.0, "E": 2.0,
+                    "charge": 1, "baryon_number": 1, "strangeness": -1}]},
 ]
 
 
